@@ -1,4 +1,4 @@
-(* C07 — Rendering directly equals rendering via encode+decode; selectors agree.  PARTIAL (no bound on the effect of quantisation on pixels).
+(* C07 — Rendering directly equals rendering via encode+decode; selectors agree.  PARTIAL (the effect of quantisation is bounded for absolute points only).
    Proved (proofs/SelProofs.v): for every call sequence, after every prefix, an Encoder that accepted the
    calls holds the same CSEL and NSEL as a Renderer fed the same calls (both follow the decoding machine's
    selector updates, sel_step), its read-back methods return them, and the generator's gradient helpers —
@@ -7,8 +7,9 @@
    correspondence run through the logger).
    via_bytes: a Renderer fed by decoding an Encoder's bytes ends in exactly the state of a Renderer fed the
    program's written-and-read-back form (C01's expect) — so the two pipelines differ by the number
-   quantisation of C01/C08 and nothing else; how far the rasteriser activity moves under that quantisation
-   is not bounded by a theorem; via_bytes_exact: when every number of the program is exactly representable in
+   quantisation of C01/C08 and nothing else; quantised_point_moves bounds how far an absolute point moves in
+   pixel space under the low-resolution coordinate quantisation (scale/128 per axis plus float32 rounding); the
+   movement of whole paths (relative operations accumulate through the pen, arcs) is not bounded; via_bytes_exact: when every number of the program is exactly representable in
    its written form (expect = the program itself) the two Renderers end in the same state, rasteriser log
    included (the correspondence run compares the two pipelines' logs on such programs). *)
 From Coq Require Import ZArith Bool List.
@@ -60,3 +61,29 @@ Print Assumptions via_bytes_exact.
 Example ex_wrap :
   esel (fold_left enc_step (CSetCSel 63 :: repeat (CSetCReg 0 true (CRGBA (mkRGBA 0 0 0 255))) 12) (enc_reset default_viewbox default_palette)) = (11, 0).
 Proof. vm_compute. reflexivity. Qed.
+
+(* ---- quantisation and pixels ---- *)
+From Coq Require Import Reals.
+From IVG Require Import SFReal FErr MapF QuantF.
+Local Open Scope R_scope.
+
+(* a low-resolution coordinate in [-128,128) and its written-and-read-back form differ by at most 1/128 *)
+Theorem quantize_close : forall x, gf x -> fle F32 cm128 x = true -> flt F32 x c128 = true ->
+  gf (quantize false x) /\ Rabs (V (quantize false x) - V x) <= / 128 /\ Rabs (V (quantize false x)) <= 129.
+Proof. exact QuantF.quantize_close. Qed.
+Print Assumptions quantize_close.
+
+(* hence the pixel coordinate of an absolute point moves by at most scale/128 plus the float32 rounding of the two
+   evaluations of the viewBox-to-pixel map (viewBox side >= 2^-40, corners <= 2^40 in magnitude, target <= 2^24 pixels) *)
+Theorem quantised_point_moves : forall (s : rstate f32) (vb : viewbox) (pal : list rgba) (x : f32),
+  (1 <= r_w s <= 2 ^ 24)%Z -> gf (vminx vb) -> gf (vmaxx vb) -> gf x ->
+  / P40 <= V (vmaxx vb) - V (vminx vb) -> Rabs (V (vminx vb)) <= P40 -> Rabs (V (vmaxx vb)) <= P40 ->
+  fle F32 cm128 x = true -> flt F32 x c128 = true ->
+  let s1 := rreset N32 s vb pal in
+  let S := IZR (r_w s) / (V (vmaxx vb) - V (vminx vb)) in
+  let MN := V (vminx vb) in
+  let q := quantize false x in
+  Rabs (V (absX N32 s1 q) - V (absX N32 s1 x)) <=
+    S * / 128 + 7 * u32 * (Rabs (S * (V q - MN)) + Rabs (S * (V x - MN))) + 2 * / IZR (2 ^ 150).
+Proof. exact QuantF.quantised_point_moves. Qed.
+Print Assumptions quantised_point_moves.
